@@ -154,7 +154,7 @@ pub fn specs() -> Vec<CheckSpec> {
             id: "C20",
             engine: "opsim",
             level: "exploration",
-            owns: &["no-panic"],
+            owns: &["no-panic", "fault-surface"],
             runs: (3000, 200_000),
             rule: "a case = a hostile program: zero-length data through every entry point, declared-size data in several chunks, more/fewer bytes than declared on both sides of 1 MiB, odd on-disk states (bucket path is a directory, content path is a directory, tmp or index-v5 is a regular file, cache root missing or a file, stray files), every call under catch_unwind and a watchdog. Non-trivial = >= 1 misuse or odd-state step executed; foreign records with a valid checksum whose integrity text does not parse; stray lock-/temp-like files next to buckets; top-level cache directories that are symlinks; index lines that are well-formed UTF-8 with a multi-byte character across the checksum/tab boundary; 1 run in 16 is the abandon-chunk family under the system-call scheduler (a write future dropped in flight, then write_all with shorter buffers)",
             assumptions: A_COMMON,
